@@ -363,6 +363,8 @@ class C13(engine.Property):
         "link-leaves-universe",
         "self-loop-in-universe",
         "network-kwargs-kept-on-the-universe",
+        "warm-memo-before-the-call",
+        "cold-memo-before-the-call",
     ]
 
     def make_config(self, rng):
@@ -413,7 +415,7 @@ class C13(engine.Property):
         for _ in range(20):
             entry = self._entry(rng, cfg, st)
             if entry is not None:
-                return {"op": "enumerate", "entry": entry, "cache": rng.random() < 0.5}
+                return {"op": "enumerate", "entry": entry, "cache": rng.random() < 0.5, "warm": rng.random() < 0.5}
         return None
 
     def _entry(self, rng, cfg, st):
@@ -493,7 +495,13 @@ class C13(engine.Property):
                 if not isinstance(vars(u).get("display"), dict):
                     u.display = {"height": "400px"}
                 s["probe:network-kwargs-kept-on-the-universe"] += 1
-            s0 = deep_snapshot(st.ex, flag)
+            # warm: the reference answers are read under the triple's own flag,
+            # so with caching on the memos are full before the call (a call that
+            # damages an entry shows).  cold: the reference answers are read
+            # with caching off, so the call under test is the first to fill the
+            # memo (a call that stores a wrong entry shows in the reads after)
+            s0 = deep_snapshot(st.ex, flag if op.get("warm", True) else False)
+            s["probe:" + ("warm" if op.get("warm", True) else "cold") + "-memo-before-the-call"] += 1
             self._shape_probes(st, entry, s0)
             cbs = h.make_callbacks()
             seams.set_flag(flag)
